@@ -800,9 +800,9 @@ spiftool_version_compare(spif_charptr_t v1, spif_charptr_t v2)
                 return c;
             }
         } else {
-            D_CONF(("     -> Comparing as alphanumeric strings \"%s\" vs. \"%s\"\n", buff1, buff2));
-            D_CONF(("     -> %d\n", (int) SPIF_CMP_FROM_INT(strcasecmp((char *) buff1, (char *) buff2))));
-            return SPIF_CMP_FROM_INT(strcasecmp((char *) buff1, (char *) buff2));
+            D_CONF(("     -> Comparing as alphanumeric strings \"%s\" vs. \"%s\"\n", v1, v2));
+            D_CONF(("     -> %d\n", (int) SPIF_CMP_FROM_INT(strcasecmp((char *) v1, (char *) v2))));
+            return SPIF_CMP_FROM_INT(strcasecmp((char *) v1, (char *) v2));
         }
     }
 
